@@ -126,7 +126,7 @@ def scan_trusted(lines):
     return sorted(set(out))
 
 
-def run_unit(name, template, rlimit=30, canaries=True, threads=None, generator=None):
+def run_unit(name, template, rlimit=30, canaries=True, threads=None, generator=None, known_clauses=()):
     os.makedirs(GEN, exist_ok=True)
     res = UnitResult(name)
     t0 = time.time()
@@ -179,7 +179,12 @@ def run_unit(name, template, rlimit=30, canaries=True, threads=None, generator=N
     # only the obligations that fail every time (guards against solver instability, never hides a
     # real failure: an obligation that cannot be proved fails under every seed).
     retries = 0
-    if vr.status == "violation":
+    def _all_known(v):
+        # failures whose clause text is listed as a known finding need no stability retry
+        return bool(known_clauses) and all(
+            any(kc in (lines[d.primary_line() - 1].text if d.primary_line() and d.primary_line() <= len(lines) else "") for kc in known_clauses)
+            for d in v.semantic)
+    if vr.status == "violation" and not _all_known(vr):
         def _ids(v):
             return {(short_kind(d.message), lines[d.primary_line() - 1].text.strip() if d.primary_line() and d.primary_line() <= len(lines) else "")
                     for d in v.semantic}
